@@ -550,13 +550,16 @@ class Parser:
                     if name == "await":
                         e = ("await", e)
                         continue
+                    turbofish = None
                     if self.at("::"):
                         self.next()
                         self.expect("<")
+                        st = self.i
                         self._angle_rest()
+                        turbofish = "".join(t[1] for t in self.t[st:self.i - 1])
                     if self.at("("):
                         args = self._call_args()
-                        e = ("mcall", e, name, args)
+                        e = ("mcall", e, name, args, turbofish)
                     else:
                         e = ("field", e, name)
             elif self.at("("):
